@@ -33,7 +33,7 @@ set_option linter.all false
 
 open EPV EPV.Gen EPV.Model EPV.Spec.Riemann EPV.Riem
 
-namespace EPV.C02
+namespace EPV.C02.Riemann
 
 /-- left-going shock: (pl, rl, ul) → (px, rho_star_shock, ul - shock(px,pl,rl,0,gl)) at speed
 `shock_velocity(px, pl, rl, ul, gl)` satisfies mass, momentum and energy jumps with γ = gl -/
@@ -259,4 +259,4 @@ theorem star_velocity_jwl (P : RiemStarVelJWL.P) (h0 : 0 < P.rk) (h1 : 0 < P.rz)
       | (simp only [epv_leaf, toSpeedJ]; first | linear_combination (-1) * fb | linear_combination fb)
   exact ⟨hm, shock_speed_jwl (toSpeedJ P) h0.ne' h1.ne' h hX _ hm⟩
 
-end EPV.C02
+end EPV.C02.Riemann
